@@ -410,6 +410,14 @@ def mon_expect(run, script, il, iab, ml):
             # the middle of a packet the index is checked again from the next boundary on
             relisted = [int(x) for x in args[0].split(',')]
             hoplist = None
+        elif kind == 'hop' and P == 'C16' and relisted and not hoplist:
+            # after a change of the list in the middle of a packet: whatever the index, an entry of the new list
+            run.cov['monitor_checks'] += 1
+            f = irqs[-1] if irqs else {}
+            w6 = [e for e in spi_entries(f.get('spi')) if e['kind'] == 'W' and e['reg'] == 6]
+            ok = {frf_bytes(x) for x in relisted}
+            if len(w6) != 1 or w6[0]['data'] not in ok:
+                run.violation('hop after a new list was registered programmed %s, which is not an entry of that list' % [e['data'] for e in w6], script)
         elif kind == 'hop' and P == 'C16' and hoplist:
             run.cov['monitor_checks'] += 1
             f = irqs[-1] if irqs else {}
@@ -546,6 +554,16 @@ def mon_expect(run, script, il, iab, ml):
                     got = abs(Fraction(x) - Fraction(32000000, (16 + 4 * m_) * 2 ** (e_ + 2)))
                     if got > best * (1 + Fraction(1, 2 ** 20)) + Fraction(x) / 2 ** 21:
                         run.violation('bandwidth %r programmed code %02x which is not the closest chip bandwidth' % (x, code), script)
+        elif kind == 'beaconfifo' and P == 'C14':
+            if not dumps:
+                continue
+            run.cov['monitor_checks'] += 1
+            want = '' if args[0] == '-' else args[0]
+            got = bytes(dumps[-1]['fifo']).hex()
+            if last is None or True:
+                if got != want:
+                    run.violation('beacon: the FIFO holds %d bytes, the beacon payload has %d (or the bytes differ)' % (len(got) // 2, len(want) // 2), script,
+                                  {'fifo': got, 'payload': want})
         elif kind == 'beacon' and P == 'C14':
             run.cov['monitor_checks'] += 1
             iv = int(args[0])
